@@ -458,6 +458,10 @@ func genIDs(t *rapid.T, n int) []int {
 		seen[id] = true
 		ids = append(ids, id)
 	}
+	// Goroutine 0 (the scheduler's g0) shows up in GOTRACEBACK=system / crash dumps.
+	if !seen[0] && oneIn(t, 25, "goroutineZero") {
+		ids[rapid.IntRange(0, n-1).Draw(t, "zeroAt")] = 0
+	}
 	// The crashing goroutine is printed first; its id is usually not the smallest.
 	if n > 1 && rapid.Bool().Draw(t, "firstNotSmallest") {
 		k := rapid.IntRange(0, n-1).Draw(t, "firstIdx")
